@@ -209,3 +209,56 @@ func spanIsOneExpr(penv *pkgEnv, file string, start, end int) bool {
 	}
 	return true
 }
+
+// headerContext names the control-clause position the bytes [from,to) of file stand in ("in-if-cond:", "in-if-init:",
+// "in-for-cond:", "in-switch-tag:", ...), or "" outside statement headers: there a bare composite literal does not parse.
+func headerContext(env *pkgEnv, file string, from, to int) string {
+	for _, f := range env.files {
+		if env.fset.Position(f.Pos()).Filename != file {
+			continue
+		}
+		base := env.fset.File(f.Pos()).Base()
+		path, _ := astutil.PathEnclosingInterval(f, token.Pos(base+from), token.Pos(base+to))
+		inside := func(n ast.Node) bool {
+			return n != nil && int(n.Pos())-base <= from && to <= int(n.End())-base
+		}
+		for _, n := range path {
+			switch x := n.(type) {
+			case *ast.BlockStmt, *ast.FuncLit:
+				return ""
+			case *ast.IfStmt:
+				switch {
+				case x.Cond != nil && inside(x.Cond):
+					return "in-if-cond:"
+				case x.Init != nil && inside(x.Init):
+					return "in-if-init:"
+				}
+			case *ast.ForStmt:
+				switch {
+				case x.Cond != nil && inside(x.Cond):
+					return "in-for-cond:"
+				case x.Init != nil && inside(x.Init):
+					return "in-for-init:"
+				case x.Post != nil && inside(x.Post):
+					return "in-for-post:"
+				}
+			case *ast.RangeStmt:
+				if inside(x.X) {
+					return "in-range-expr:"
+				}
+			case *ast.SwitchStmt:
+				switch {
+				case x.Tag != nil && inside(x.Tag):
+					return "in-switch-tag:"
+				case x.Init != nil && inside(x.Init):
+					return "in-switch-init:"
+				}
+			case *ast.TypeSwitchStmt:
+				if x.Init != nil && inside(x.Init) {
+					return "in-switch-init:"
+				}
+			}
+		}
+	}
+	return ""
+}
